@@ -83,7 +83,7 @@ EXTRA = {
     "C03": " The whole of multitensor_factorization (mainCode) is translated and proved equal to factorizeWith.",
     "C04": " Histories: one generator object handed to two successive calls (harness op runshared); the parameter lists of the entry point (generator by value) and of Solver::run are pinned.",
     "C05": " Scripted words for 2-4 realizations in one call (a realization's first likelihood often equals the previous one's last).",
-    "C07": " Histories also with one generator object across calls, with rewired networks through one Solver object, with the caller's label vector pre-filled; edge lists of all harness calls live in one set of buffers refilled in place.",
+    "C07": " State inventory (translator): no static / thread_local / mutable / extern storage in the library and the command line, data members of Solver and Network pinned (MTProps/CodeState). Histories also with one generator object across calls, with rewired networks through one Solver object, with the caller's label vector pre-filled; edge lists of all harness calls live in one set of buffers refilled in place.",
     "C08": " Second tie (translator): graph.hpp (add_vertex, the Network constructor, extract_vertices_with_edges / _labels) is regenerated through a statement table and proved equal to the declarative build (MTProofs/CodeRefineGraph, MTProps/CodeGraph).",
     "C11": " Second tie (translator): graph.hpp regenerated and proved equal to the declarative build (undirected: in-lists empty, one shared list). The second run of every pair hands the in-membership container in another shape (K x N, N*K x 1, empty, one row too many).",
     "C12": " Second tie (translator): graph.hpp and the whole of multitensor_factorization regenerated and proved equal to build / factorizeWith (code_relabel). The caller's label vector arrives empty, partly right, too long or stale.",
